@@ -114,6 +114,11 @@ const EXT: [(u8, u8, u8); 6] = [(255, 128, 0), (1, 2, 3), (0, 0, 171), (254, 254
 struct Table<'a> {
     slots: Vec<(usize, &'a FontInfo)>,
 }
+impl Table<'_> {
+    fn user_font(&self) -> bool {
+        self.slots.iter().any(|(_, f)| f.name.starts_with("derived:"))
+    }
+}
 
 fn new_buffer(size: (i32, i32), table: &Table) -> Buffer {
     let mut buf = Buffer::new(size);
@@ -186,7 +191,7 @@ fn full_layer(size: (i32, i32), cells: &[AttributedChar]) -> Layer {
 }
 
 /// One optimiser run per setting of normalize_whitespaces; records cells, sizes and the image comparison.
-fn run_doc(out: &mut Out, buf: &Buffer, family: &str, doc: usize, stats: &mut Stats) {
+fn run_doc(out: &mut Out, buf: &Buffer, family: &str, user_font: bool, doc: usize, stats: &mut Stats) {
     for norm in [false, true] {
         let mut opts = SaveOptions::default();
         opts.normalize_whitespaces = norm;
@@ -197,7 +202,7 @@ fn run_doc(out: &mut Out, buf: &Buffer, family: &str, doc: usize, stats: &mut St
             (o, s1, p1, s2, p2)
         });
         match r {
-            Err(p) => out.ev(&json!({"ev":"panic","family":family,"doc":doc,"norm":norm as u8,"site":panic_site(&p),"msg":p.msg})),
+            Err(p) => out.ev(&json!({"ev":"panic","family":family,"userfont":user_font as u8,"doc":doc,"norm":norm as u8,"site":panic_site(&p),"msg":p.msg})),
             Ok((o, s1, p1, s2, p2)) => {
                 let (w, h) = (buf.get_width(), buf.get_height());
                 let fs = buf.get_font(0).map(|f| f.size).unwrap_or_default();
@@ -223,7 +228,7 @@ fn run_doc(out: &mut Out, buf: &Buffer, family: &str, doc: usize, stats: &mut St
                     }
                 }
                 stats.cells += (w * h) as usize;
-                out.ev(&json!({"ev":"opt","family":family,"doc":doc,"norm":norm as u8,"layers":buf.layers.len(),"size":[w,h],"osize":[o.get_width(),o.get_height()],
+                out.ev(&json!({"ev":"opt","family":family,"userfont":user_font as u8,"doc":doc,"norm":norm as u8,"layers":buf.layers.len(),"size":[w,h],"osize":[o.get_width(),o.get_height()],
                     "olayers":o.layers.len(),"dims":[[s1.width,s1.height],[s2.width,s2.height]],"img_eq":img_eq as u8,"first_diff":first_diff,"cells":cells}));
             }
         }
@@ -286,7 +291,7 @@ pub fn c12(a: &Args) {
             let mut buf = new_buffer((w, h), &table);
             buf.layers.push(full_layer((w, h), &cells));
             doc += 1;
-            run_doc(&mut out, &buf, "sweep", doc, &mut stats);
+            run_doc(&mut out, &buf, "sweep", table.user_font(), doc, &mut stats);
         }
     }
 
@@ -345,13 +350,13 @@ pub fn c12(a: &Args) {
             let mut buf = new_buffer((w, h), &table);
             buf.layers.push(full_layer((w, h), chunk));
             doc += 1;
-            run_doc(&mut out, &buf, "classes", doc, &mut stats);
+            run_doc(&mut out, &buf, "classes", table.user_font(), doc, &mut stats);
         }
     }
     eprintln!("c12: {} TLC witnesses x {} fonts instantiated ({} pairs)", wit.len(), class_fonts.len(), n_wit);
 
     // (3) multi: random documents of 1..=4 layers (alpha, offset, hidden) over font tables of 1..=3 slots
-    let n_tables = if thorough { 40 } else { 8 };
+    let n_tables = if thorough { 120 } else { 8 };
     let docs_per_table = if thorough { 30 } else { 10 };
     for t in 0..n_tables {
         let mut r = rng(seed, 122_000 + t as u64);
@@ -390,7 +395,7 @@ pub fn c12(a: &Args) {
                 buf.layers.push(layer);
             }
             doc += 1;
-            run_doc(&mut out, &buf, "multi", doc, &mut stats);
+            run_doc(&mut out, &buf, "multi", table.user_font(), doc, &mut stats);
         }
     }
     out.flush();
